@@ -232,6 +232,8 @@ type GenState struct {
 	wallBase int64
 	big      bool     // a few histories keep everything in one huge segment (hundreds of messages)
 	plan     []string // op kinds queued by a chain (C20)
+
+	epochZero bool // C01: a few messages carry the time 1970-01-01T00:00:00Z exactly
 }
 
 const baseTime = int64(1_700_000_000_000_000)
@@ -265,7 +267,11 @@ func (g *GenState) nextTime() (t int64, zero bool) {
 		g.lastT += int64(1 + r.Intn(3))
 	case "plateau", "preepoch":
 		if !r.Chance(0.6) {
+			prev := g.lastT
 			g.lastT += int64(1 + r.Intn(2))
+			if prev < 0 && g.lastT > 0 {
+				g.lastT = 0 // exactly 1970-01-01T00:00:00Z: a time like any other (not the zero time.Time)
+			}
 		}
 	case "any":
 		g.lastT = baseTime + int64(r.Intn(60)) - 20
@@ -300,6 +306,11 @@ func (g *GenState) genMsg() PubMsg {
 		m.Value = v
 	}
 	m.T, m.ZeroTime = g.nextTime()
+	if g.epochZero && !m.ZeroTime && r.Chance(0.06) {
+		// exactly 1970-01-01T00:00:00Z, with or without a sub-microsecond part: UnixMicro() == 0 but not
+		// the zero time.Time, so it is stored as it is
+		m.T = 0
+	}
 	if !m.ZeroTime && r.Chance(0.5) {
 		m.NS = 1 + r.Intn(999)
 		if r.Bool() {
